@@ -11,13 +11,13 @@ STRAT_TECH = "; thorough tier adds coverage-guided structured fuzzing (libFuzzer
 STRAT_TEXT = " Thorough additionally runs a coverage-guided libFuzzer campaign whose input is decoded by a hand-written data provider into this property's case and judged by the same oracle."
 CHECKS = {
  "C01": ("exploration", "property-based testing (proptest): round trip + suffix metamorphic relation over constructed well-formed messages",
-         "Seeded random search with shrinking over well-formed messages built by construction (all 32 header-flag combinations, every message-type family, every payload kind, every argument kind/width/coding, boundary lengths up to 65535) x two suffixes; the crate's serialisation is parsed back and compared field for field (floats by bits), the remainder must be exactly the suffix. Absence of a counter-example in 200k (quick) / 3M (thorough) generated cases, not a proof.",
+         "Seeded random search with shrinking over well-formed messages built by construction (all 32 header-flag combinations, every message-type family, every payload kind, every argument kind/width/coding, boundary lengths up to 65535) x two suffixes; the crate's serialisation is parsed back and compared field for field (floats by bits), the remainder must be exactly the suffix. Absence of a counter-example in 200k (quick) / 3M (thorough) generated cases, not a proof. Call histories on one thread are part of every case: a damaged copy parsed first, an ill-formed value serialised first, the other-byte-order twin of the message serialised in between.",
          "Trusts the generator's notion of 'well-formed' (DESIGN.md 3.1, taken clause by clause from the quantifier) and the structural comparator; errors made consistently in writer and reader are C02's job.", "DESIGN.md 4/C01"),
  "C02": ("exploration", "differential testing against an independently written reference codec (proptest grid + random + hostile bytes; libFuzzer in the thorough tier)",
-         "Encode: a systematic grid over all 32 flag combinations x 256 MSIN bytes x 2 storage modes plus free random messages, crate bytes compared byte for byte with the reference encoder. Decode: hostile byte strings (canonical, wire-level dialect, mutated, arbitrary, > 64 KiB) judged in both storage modes against the reference decoder's verdict (fields + consumed length / incomplete / reject). Thorough adds a coverage-guided libFuzzer campaign with the same oracle in the target.",
+         "Encode: a systematic grid over all 32 flag combinations x 256 MSIN bytes x 2 storage modes plus free random messages, crate bytes compared byte for byte with the reference encoder. Decode: hostile byte strings (canonical, wire-level dialect, mutated, arbitrary, > 64 KiB) judged in both storage modes against the reference decoder's verdict (fields + consumed length / incomplete / reject). Thorough adds a coverage-guided byte-level libFuzzer campaign (target bytes) with the same oracle in the target.",
          "The reference codec (harness/src/refcodec.rs) is the trusted description of the AUTOSAR layout and of the accepted dialect; in the overlap 'too short and length field inconsistent' both verdicts are accepted.", "DESIGN.md 3.2, 4/C02"),
  "C03": ("exploration", "property-based testing + coverage-guided fuzzing (libFuzzer, ASan) with post-condition oracle under catch_unwind and overflow checks",
-         "Every slice-level entry point is called on hostile byte strings (incl. > 64 KiB and > 1 MiB in one slice, truncated, bit-flipped, length-corrupted) in all storage/filter modes (7 fixed filter configurations and generated ones through both conversions) with a Trace-level logger installed and dlt-core's debug feature compiled in; panics and arithmetic overflow are observed through catch_unwind with overflow-checks on, returned remainders must lie inside the input, returned messages are re-serialised, measured and validated. Thorough adds libFuzzer campaigns (AddressSanitizer) incl. a -max_len=70000 pass.",
+         "Every slice-level entry point is called on hostile byte strings (incl. > 64 KiB and > 1 MiB in one slice, truncated, bit-flipped, length-corrupted) in all storage/filter modes (7 fixed filter configurations and generated ones through both conversions) with a Trace-level logger installed and dlt-core's debug feature compiled in; panics and arithmetic overflow are observed through catch_unwind with overflow-checks on, returned remainders must lie inside the input, returned messages are re-serialised, measured and validated. Thorough adds libFuzzer campaigns (AddressSanitizer) incl. a -max_len=70000 pass. Every check runs in a supervised child process: an input that kills the process (stack overflow, abort) is re-found by a tracked second run and reported with that input as the replay; periodic inputs (a short unit repeated up to 1.2 MB) are part of the generator; the harness logger is itself a DLT sink that serialises and parses a message inside the log call.",
          "Trusts catch_unwind + overflow-checks + (thorough) ASan to make memory/arithmetic errors visible; out-of-bounds reads that neither panic nor trip ASan would be missed.", "DESIGN.md 4/C03"),
  "C04": ("exploration", "property-based testing + libFuzzer: consumption oracle computed from the raw bytes, filter metamorphic relation",
          "On hostile inputs biased to parseable-but-inconsistent messages, every Ok result of dlt_message under 9 filter configurations and of dlt_consume_msg is compared with the consumption computed from the raw bytes only (first pattern offset + 16 + big-endian LEN); all filters must leave the same remainder; iteration must terminate within len/4+2 steps.",
@@ -26,31 +26,31 @@ CHECKS = {
          "For generated well-formed messages every proper prefix (all cut positions for messages <= 4 KiB; field-map-guided cuts beyond) must be reported IncompleteParse with a hint between 1 and the number of missing bytes, by the parser and by the skipper. 150k messages quick, 2M messages thorough (each with all its prefixes).",
          "Trusts the generator of well-formed messages; cut positions of messages > 4 KiB are sampled along the field map, not exhaustive.", "DESIGN.md 4/C05"),
  "C06": ("exploration", "property-based testing against a naive search reference + junk-prefix metamorphic relation",
-         "The pattern search is compared with a naive first-occurrence search on arbitrary / low-entropy / 70 KB / multi-megabyte inputs with planted patterns, and bounded-exhaustively with the pattern placed around every power-of-two block boundary from 16 B to 2 MiB; junk ++ message ++ suffix must parse like message ++ suffix, without a filter and under 7 filter configurations (kept and filtered-out results alike); streams with junk between messages must be recovered completely and in order (with a filter: one result per message).",
+         "The pattern search is compared with a naive first-occurrence search on arbitrary / low-entropy / 70 KB / multi-megabyte inputs with planted patterns, and bounded-exhaustively with the pattern placed around every power-of-two block boundary from 16 B to 2 MiB; junk ++ message ++ suffix must parse like message ++ suffix, without a filter and under 7 filter configurations (kept and filtered-out results alike); streams with junk between messages must be recovered completely and in order (with a filter: one result per message). Payloads carrying runs of complete stored records (log-in-log) and a reused-buffer history are part of the generator.",
          "Junk is pattern-free by construction (scrubbed); relies on 'DLT\\x01' having no border.", "DESIGN.md 4/C06"),
  "C07": ("exploration", "property-based testing over generated read schedules and fault placements against a slice-cutting reference",
-         "The harness owns the byte source: generated sequences of short reads, single and long runs (2..5000) of ErrorKind::Interrupted, plus systematic constant-chunk schedules (1..64, with/without interruption before every read) over well-formed, truncated, hostile, hostile-length and long streams (hundreds to thousands of messages, large messages), read through ::new and through with_capacity readers down to buffers exactly as long as the longest declared message; the outcome sequence of read_message and next_message_slice must equal cutting the stream at the declared lengths and parsing each piece; no panic, bounded number of calls.",
+         "The harness owns the byte source: generated sequences of short reads, single and long runs (2..5000) of ErrorKind::Interrupted, plus systematic constant-chunk schedules (1..64, with/without interruption before every read) over well-formed, truncated, hostile, hostile-length and long streams (hundreds to thousands of messages, large messages), read through ::new and through with_capacity readers down to buffers exactly as long as the longest declared message; the outcome sequence of read_message and next_message_slice must equal cutting the stream at the declared lengths and parsing each piece; no panic, bounded number of calls. Streams include bursts (one message repeated with single header fields changed) and records that carry other records; a second filter configuration may be passed at every other call of one reader.",
          "Schedules are sampled (plus the systematic family), not exhausted; for a declared length < 4 only no-panic / termination / prefix delivery is asserted, as the statement fixes nothing more.", "DESIGN.md 4/C07"),
  "C08": ("exploration", "differential testing async vs blocking reader over generated poll schedules on a hand-rolled executor",
-         "Generated sequences of Poll::Pending (single and long runs) / Poll::Ready(k) (source wakes before Pending) plus systematic schedules, over the streams and reader constructions of C07 (incl. tight with_capacity readers and long streams); the async reader is polled with a poll budget and its outcome sequence (messages by bits, error class, end) must equal the blocking reader's on an always-ready source.",
+         "Generated sequences of Poll::Pending (single and long runs) / Poll::Ready(k) (source wakes before Pending) plus systematic schedules, over the streams and reader constructions of C07 (incl. tight with_capacity readers and long streams); the async reader is polled with a poll budget and its outcome sequence (messages by bits, error class, end) must equal the blocking reader's on an always-ready source. The executor counts wake-ups: a poll that returns Pending although nothing woke the task is a lost wake-up; a second filter configuration may be passed at every other call.",
          "The blocking reader is the reference (C07 decides its own conformance); real reactor timing is out of scope; a poll budget, not wall-clock, decides 'never completes'.", "DESIGN.md 4/C08"),
  "C09": ("exploration", "property-based testing against an independent decision procedure written from the statement",
-         "Filter configurations (every criterion absent/present, all level numbers, empty/duplicate/hitting/missing id lists, near-miss ids such as ids longer than the 4-byte wire field, counts around the set sizes, both From conversions) x well-formed messages x suffix; the drop/keep decision, the FilteredOut payload length, the remainder and the equality of kept messages with the unfiltered parse are checked, also through read_message.",
+         "Filter configurations (every criterion absent/present, all level numbers, empty/duplicate/hitting/missing id lists, near-miss ids such as ids longer than the 4-byte wire field, counts around the set sizes, both From conversions) x well-formed messages x suffix; the drop/keep decision, the FilteredOut payload length, the remainder and the equality of kept messages with the unfiltered parse are checked, also through read_message. A quarter of the cases also run as a stream of siblings (one header field changed) through one reader and repeated slice parsing, each verdict judged on its own; a third of the processed configurations are struct literals or rewritten after conversion.",
          "Trusts the decision procedure in harness/src/props/c09.rs (transcribed from the statement).", "DESIGN.md 4/C09"),
  "C10": ("exploration", "model-based property testing: independent tally + merge histories generated as operation vectors",
-         "Streams of 0..40 messages over a small id pool; a recording collector must see each message exactly once with its decoded headers; StatisticInfoCollector must equal an independent tally; merging the parts of a split stream along a generated history (permutation + (receiver, donor) merge sequence) must equal the statistics of the whole.",
+         "Streams of 0..40 messages over a small id pool; a recording collector must see each message exactly once with its decoded headers; StatisticInfoCollector must equal an independent tally; merging the parts of a split stream along a generated history (permutation + (receiver, donor) merge sequence) must equal the statistics of the whole. The id pool contains one string in several roles and two spellings of one name.",
          "Trusts the tally in harness/src/props/c10.rs; histories are sampled.", "DESIGN.md 4/C10"),
  "C11": ("exploration", "property-based testing: independent model assembly + layout metamorphic relation",
-         "Generated abstract FIBEX models rendered under two independent layouts (1..4 files listed in an order that differs from the lexicographic path order, element and child order, prefixes, reference style, noise; ids also longer than 4 bytes / multi-byte); gather_fibex_data must equal the independent assembly and both layouts must load equally; extract_metadata lookups are checked for present and absent ids.",
+         "Generated abstract FIBEX models rendered under two independent layouts (1..4 files listed in an order that differs from the lexicographic path order, element and child order, prefixes, reference style, noise; ids also longer than 4 bytes / multi-byte); gather_fibex_data must equal the independent assembly and both layouts must load equally; extract_metadata lookups are checked for present and absent ids. Layouts also document (DESC) elements whose description is not part of the model and give files modification times in the past and in the future; a reload history rewrites files in place.",
          "Document shapes the statement is silent about are not generated (listed in the evidence assumptions); trusts the vocabulary table in harness/src/gen/fibex.rs.", "DESIGN.md 4/C11"),
  "C12": ("fault_enumeration", "fault injection with per-document exhaustive truncation, element/attribute deletion and byte corruption, judged in a child process by consumed CPU time",
-         "Every truncation offset of both sample files and of generated document sets; every document that is a sequence of at most 4 (thorough: 5) of 30 markup tokens (bounded-exhaustive); sampled subtree / tag / attribute deletions, byte corruptions, duplicated slices, combinations of up to three damages, 'element-level damage, then every truncation offset behind it', damaged members of multi-file sets and special path sets; each load runs in an evaluator child and must answer model/refused within 10 s of CPU; panic, child death or budget exhaustion is a violation. Thorough adds a libFuzzer campaign on document bytes whose hang candidates are re-judged by the same evaluator.",
+         "Every truncation offset of both sample files and of generated document sets; every document that is a sequence of at most 4 (thorough: 5) of 30 markup tokens (bounded-exhaustive); sampled subtree / tag / attribute deletions, byte corruptions, duplicated slices, combinations of up to three damages, 'element-level damage, then every truncation offset behind it', damaged members of multi-file sets and special path sets; each load runs in an evaluator child and must answer model/refused within 10 s of CPU; panic, child death or budget exhaustion is a violation. Thorough adds a libFuzzer campaign on document bytes whose hang candidates are re-judged by the same evaluator. Files also carry modification times in the past and in the future.",
          "Non-termination is decided by a CPU-time budget (10^4 x the normal cost), not proved; damage other than truncation is sampled.", "DESIGN.md 2.5, 4/C12"),
  "C13": ("exploration", "property-based testing against a reference packing, with exhaustive truncation per case (+ libFuzzer in the thorough tier)",
-         "Lists of supported signal types with values are packed by a reference encoder in the stated byte order; exact and exact+trailing payloads must decode to one bit-equal argument per type carrying the given type info, every proper truncation and a string made invalid UTF-8 at every byte position in turn must be refused, lists of up to 300 signals, fixed-point kinds must not panic.",
+         "Lists of supported signal types with values are packed by a reference encoder in the stated byte order; exact and exact+trailing payloads must decode to one bit-equal argument per type carrying the given type info, every proper truncation and a string made invalid UTF-8 at every byte position in turn must be refused, lists of up to 300 signals, fixed-point kinds must not panic. Bounded-exhaustive section: every trailing length 0..=1300 behind a closing string/raw field of 0..=5 bytes.",
          "Strings are compared modulo one final NUL (left open by the statement); fixed-point decoding is not asserted.", "DESIGN.md 4/C13"),
  "C14": ("exploration", "bounded-exhaustive enumeration of the finite code spaces against the bit layout (thorough: all 2^32 type-info words)",
-         "All 256 HTYP bytes and all 256 MSIN bytes are decoded, compared with the layout tables and re-encoded; type-info words: quick enumerates bits 0-17 completely x 1024 patterns of the unused upper bits, thorough enumerates all 2^32 words (exhaustive: true); acceptance must equal the reference predicate, re-encoding must decode to the same description, differ only in unused bits and be byte-reversal symmetric.",
+         "All 256 HTYP bytes and all 256 MSIN bytes are decoded, compared with the layout tables and re-encoded; type-info words: quick enumerates bits 0-17 completely x 1024 patterns of the unused upper bits, thorough enumerates all 2^32 words (exhaustive: true); acceptance must equal the reference predicate, re-encoding must decode to the same description, differ only in unused bits and be byte-reversal symmetric. HTYP and MSIN are also judged inside messages: all header types in 4 ECU fillings x storage x 8 filters x 3 payload forms (incl. arguments written in the other byte order), all message-info bytes decoded by the parser and re-encoded by rebuilding the message from its decoded parts.",
          "Trusts the layout tables in harness/src/model.rs and refcodec.rs; exhaustive only in the thorough tier for type info.", "DESIGN.md 4/C14"),
  "C15": ("exploration", "property-based testing: computed vs serialised lengths, constructor invariants, parse-back, reference storage header",
          "Generated message configurations (every payload kind, optional fields, sizes up to the 16-bit limit, 10% non-representable) are built with Message::new; payload_length, byte_len, verbose flag and NOAR are compared with the reference encoding and the payload kind, representable ones must parse back to themselves, add_storage_header must prepend exactly the reference storage header; valid() is checked on mismatched typed kinds.",
@@ -59,13 +59,13 @@ CHECKS = {
          "Whenever the parser returns a message from a hostile input and its re-serialisation has the length its own (emitted) length field declares, re-parsing must give the identical message with nothing left and serialising again the same bytes; the evidence counts how many inputs were non-canonical (the parser normalised something).",
          "Inputs outside the statement's precondition (re-serialisation of another length) are only counted.", "DESIGN.md 4/C16"),
  "C19": ("exploration", "bounded-exhaustive enumeration over a small alphabet + property-based testing against a reference extraction function",
-         "All byte strings of length 0..6 over {00,'a',C3,A9,E2,82,AC,FF} x sizes 0..7 are enumerated (2.4 M calls, exhaustive for that space), then random buffers/sizes up to 65535 and huge sizes, and messages whose four id fields are arbitrary bytes; the result must be the reference extraction (cut at first NUL inside the size, longest valid UTF-8 prefix, consume exactly the size; incomplete with hint <= shortfall otherwise).",
+         "All byte strings of length 0..6 over {00,'a',C3,A9,E2,82,AC,FF} x sizes 0..7 are enumerated (2.4 M calls, exhaustive for that space), then random buffers/sizes up to 65535 and huge sizes, and messages whose four id fields are arbitrary bytes; the result must be the reference extraction (cut at first NUL inside the size, longest valid UTF-8 prefix, consume exactly the size; incomplete with hint <= shortfall otherwise). The cuts inside the id fields are also parsed under filters that would reject the message, and the complete message behind junk must yield the same ids.",
          "Trusts the reference extraction function (refcodec::text); beyond the small alphabet the space is sampled.", "DESIGN.md 4/C19"),
  "C17": ("exploration", "property-based testing (proptest) + boundary enumeration against a wide-integer reference",
-         "Seeded random search (uniform, log-uniform and (seconds, remainder) inputs) plus an enumerated boundary set for both constructors, each result compared with u128 arithmetic written from the statement; overflow checks are compiled in so an overflowing multiplication is a visible panic. The domain is one u64 per constructor, so boundaries + millions of samples is the right depth; nothing is proved.",
+         "Seeded random search (uniform, log-uniform and (seconds, remainder) inputs) plus an enumerated boundary set for both constructors, each result compared with u128 arithmetic written from the statement; overflow checks are compiled in so an overflowing multiplication is a visible panic. The domain is one u64 per constructor, so boundaries + millions of samples is the right depth; nothing is proved. Call histories (walks, interleaved unrelated clocks, message stamping and stored records parsed in between), conversions inside thread-local destructors during thread teardown and the first conversions of fresh threads are separate sections.",
          "Trusts the u128 reference formula and rustc's overflow checks; inputs outside the stated domain (seconds >= 2^32) are not judged.", "DESIGN.md 4/C17"),
  "C18": ("exploration", "property-based testing (proptest) against a wide-arithmetic reference (f64 product, i128 sum)",
-         "Seeded random search over arguments of every kind, every integer variant/width, arbitrary f32 quantization bit patterns and i32/i64 offsets incl. extremes and mismatched combinations; the result is compared with a reference computed in f64/i128 exactly inside the window the statement fixes, elsewhere only 'no panic' and 'Some implies fixed-point kind with data and integer value'.",
+         "Seeded random search over arguments of every kind, every integer variant/width, arbitrary f32 quantization bit patterns and i32/i64 offsets incl. extremes and mismatched combinations; the result is compared with a reference computed in f64/i128 exactly inside the window the statement fixes, elsewhere only 'no panic' and 'Some implies fixed-point kind with data and integer value'. Quantizations include the f32 neighbours (1..3 ulp) of round values; names and units up to 80 bytes of multi-byte text.",
          "Trusts the reference arithmetic and rustc's overflow checks; outside the stated window the numeric result is not judged.", "DESIGN.md 4/C18"),
 }
 NOT_YET = {}
@@ -89,7 +89,7 @@ manifest = {
          "kind_free_text": "Rust crate: proptest strategies + seeded 16-worker driver with shrinking, bounded-exhaustive enumerators, independent reference DLT codec, evidence/replay writer; libFuzzer targets (fuzz/: bytes, fibex, args, strat) call the same oracles"},
     ],
     "checks": [],
-    "notes": "Driver: ./check <Cxx> <quick|thorough>; replay: ./check <Cxx> --replay <file>. Exit 0 held / 1 VIOLATION / 2 inconclusive. VERIF_SEED selects the PRNG seed. Findings: KNOWN_FINDINGS.txt.",
+    "notes": "Driver: ./check <Cxx> <quick|thorough>; replay: ./check <Cxx> --replay <file>. Exit 0 held / 1 VIOLATION / 2 inconclusive. VERIF_SEED selects the PRNG seed. Each check runs in a supervised child process (a case that kills the process or never returns is confirmed in a further child before it is reported; anything unconfirmed is exit 2). Findings: KNOWN_FINDINGS.txt.",
     "not_applicable": [{"property_id": k, "reason": v} for k, v in sorted(NOT_YET.items())],
 }
 for pid in sorted(CHECKS):
